@@ -695,7 +695,11 @@ func New() Beacon {
 func (b *beacon) GetAll() map[string]treasure.Treasure {
 	b.mu.RLock()
 	defer b.mu.RUnlock()
-	return b.treasuresByKeys
+	// Hand out a snapshot, never the live map: callers (Gateway.GetAll, the cold index
+	// build in swamp.treasuresForBeacon / PushManyFromMap) iterate the result WITHOUT
+	// this beacon's lock, and a concurrent Add/Delete would otherwise crash the whole
+	// process with "fatal error: concurrent map iteration and map write".
+	return maps.Clone(b.treasuresByKeys)
 }
 
 type IterationType int
